@@ -72,6 +72,7 @@ type Contracts struct {
 	Kinds        *KindSpec
 	Atomic       map[string]bool
 	SoleConsumer map[string]string // Struct.field channel -> the one function that receives from it
+	SoleProducer map[string]string // Struct.field channel -> the one function that sends on it
 	CloseOnly    map[string]bool   // Struct.field channels on which nothing is ever sent: a receive succeeds only once the channel is closed
 	Immutable    map[string]bool
 	Consts       map[string]*CExpr
@@ -102,13 +103,13 @@ type ConfinedDecl struct {
 var topKeywords = map[string]bool{
 	"confined": true, "shared": true, "owned": true, "kind": true, "kindfunc": true, "kindok": true,
 	"func": true, "pred": true, "spec": true, "lemma": true, "callback": true, "ghost": true,
-	"guard": true, "atomic": true, "closeonly": true, "soleconsumer": true, "immutable": true, "const": true, "end": true, "axiom": true,
+	"guard": true, "atomic": true, "closeonly": true, "soleconsumer": true, "soleproducer": true, "immutable": true, "const": true, "end": true, "axiom": true,
 	"monitor": true, "constructor": true,
 }
 
 func newContracts() *Contracts {
 	return &Contracts{Funcs: map[string]*FuncContract{}, Specs: map[string]*SpecDef{}, Callbacks: map[string]*FuncContract{},
-		Guards: map[string][]string{}, Atomic: map[string]bool{}, CloseOnly: map[string]bool{}, SoleConsumer: map[string]string{}, Immutable: map[string]bool{}, Consts: map[string]*CExpr{},
+		Guards: map[string][]string{}, Atomic: map[string]bool{}, CloseOnly: map[string]bool{}, SoleConsumer: map[string]string{}, SoleProducer: map[string]string{}, Immutable: map[string]bool{}, Consts: map[string]*CExpr{},
 		Monitors: map[string]*Clause{}, Ctors: map[string]bool{}}
 }
 
@@ -286,13 +287,17 @@ func loadContractsInto(c *Contracts, path string) (*Contracts, error) {
 				c.CloseOnly[f] = true
 			}
 			cur = nil
-		case "soleconsumer":
+		case "soleconsumer", "soleproducer":
 			k := strings.Index(rest, ":")
 			if k < 0 {
-				return nil, fail("soleconsumer Func : Struct.chanField ...")
+				return nil, fail(first + " Func : Struct.chanField ...")
 			}
 			for _, f := range strings.Fields(rest[k+1:]) {
-				c.SoleConsumer[f] = strings.TrimSpace(rest[:k])
+				if first == "soleconsumer" {
+					c.SoleConsumer[f] = strings.TrimSpace(rest[:k])
+				} else {
+					c.SoleProducer[f] = strings.TrimSpace(rest[:k])
+				}
 			}
 			cur = nil
 		case "confined":
